@@ -310,18 +310,21 @@ example : invoked (CL.run rigHandler {} [.command .cmd (.ok 3), .command .cmd (.
 
 end SwimVerif.CmdPath
 
-/-! ## Part 6 — agent-sent commands inside the agent task (`command_buffer`, `CommandWriter`, `CommandSendComplete`) -/
+/-! ## Part 6 — agent-sent commands inside the agent task (`command_buffer`, `CommandWriter`, `CommandSendComplete`,
+commanders: `CommanderIds::get_request`, `Register` / `Registered` records) -/
 namespace SwimVerif.CL
 
-/-- **Every command a handler sends is on its way exactly once, in issue order**: what the runtime has read from the
-ad hoc channel, then what is in the channel, then the batch of the write in flight, then `command_buffer` — is exactly
-the sequence of commands the received lane commands made the handlers send. For every handler and every interleaving
-of lane requests, lane write completions, ad hoc write completions and runtime reads. -/
+/-- **Every command a handler sends is on its way exactly once, in issue order, for the target it was meant for**:
+resolve the records — read by the runtime, then in the ad hoc channel, then in the batch of the write in flight, then
+in `command_buffer` — the way the runtime does (`Register` binds an id, a `Registered` record goes to what its id is
+bound to): the result is exactly the sequence of commands the received lane commands made the handlers send, each
+with its intended target. For every handler (ad hoc sends and commanders, created once or again) and every
+interleaving of lane requests, lane write completions, ad hoc write completions and runtime reads. -/
 theorem C14_agent_commands_exactly_once_in_order (h : Handler) (evs : List Ev) :
-    (run h {} evs).ad.taken ++ (run h {} evs).ad.chan ++ (run h {} evs).ad.inflight ++ (run h {} evs).ad.buf
-      = (validCmds (cmdBodies evs)).flatMap h.issuedBy := by
+    (resolveRun ((run h {} evs).ad.taken ++ (run h {} evs).ad.chan ++ (run h {} evs).ad.inflight
+        ++ (run h {} evs).ad.buf)).2 = (validCmds (cmdBodies evs)).flatMap h.intendedBy := by
   have hi := adinv_run h evs {} (adinv_init h)
-  rw [hi.fifo, hi.issued, run_received h evs {}]; rfl
+  rw [hi.ok.fifo, hi.ok.res, hi.meant, run_received h evs {}]; rfl
 
 /-- **Buffered commands are never left behind**: while `command_buffer` is not empty the writer is away, i.e. a write
 is in `cmd_send_fut` whose `CommandSendComplete` starts the next write (this is what the loop must do itself — no
@@ -333,9 +336,10 @@ theorem C14_agent_commands_never_stranded (h : Handler) (evs : List Ev)
 /-- **At quiescence (no ad hoc write in flight) every command issued by a handler has been written to the ad hoc
 channel exactly once, in issue order — hence in issue order per target.** -/
 theorem C14_agent_commands_all_forwarded (h : Handler) (evs : List Ev) (hq : (run h {} evs).ad.home = true) :
-    (run h {} evs).ad.taken ++ (run h {} evs).ad.chan = (validCmds (cmdBodies evs)).flatMap h.issuedBy ∧
-    ∀ t, adFor t ((run h {} evs).ad.taken ++ (run h {} evs).ad.chan)
-          = adFor t ((validCmds (cmdBodies evs)).flatMap h.issuedBy) := by
+    (resolveRun ((run h {} evs).ad.taken ++ (run h {} evs).ad.chan)).2
+        = (validCmds (cmdBodies evs)).flatMap h.intendedBy ∧
+    ∀ t, adFor t (resolveRun ((run h {} evs).ad.taken ++ (run h {} evs).ad.chan)).2
+          = adFor t ((validCmds (cmdBodies evs)).flatMap h.intendedBy) := by
   have hi := adinv_run h evs {} (adinv_init h)
   have hb : (run h {} evs).ad.buf = [] := by
     cases hx : (run h {} evs).ad.buf with
@@ -344,35 +348,74 @@ theorem C14_agent_commands_all_forwarded (h : Handler) (evs : List Ev) (hq : (ru
       have := hi.owed (by simp [hx])
       rw [hq] at this; exact absurd this (by simp)
   have hall := C14_agent_commands_exactly_once_in_order h evs
-  rw [hi.idle hq, hb] at hall
+  rw [hi.ok.idle hq, hb] at hall
   simp only [List.append_nil] at hall
   exact ⟨hall, fun t => by rw [hall]⟩
 
-/-! Non-vacuity (the rig's lifecycle): 17 sends 4 commands, 22 a burst of 60; the first write is still in flight when
-the burst arrives (it waits in `command_buffer`), one completion restarts the writer, the second brings it home. -/
+/-- **Commands sent through a `Commander` reach their own target**: among the resolved records, those that carry an
+id are — once each, in order — exactly the commands the handlers sent through commanders, and the id each carries is
+bound (by the `Register` records that precede it) to that commander's own address. -/
+theorem C14_commander_commands_reach_their_own_target (h : Handler) (evs : List Ev) :
+    viaCommander (resolveRun ((run h {} evs).ad.taken ++ (run h {} evs).ad.chan ++ (run h {} evs).ad.inflight
+        ++ (run h {} evs).ad.buf)).2 = (validCmds (cmdBodies evs)).flatMap h.csentBy := by
+  rw [C14_agent_commands_exactly_once_in_order, viaCommander_flatMap]
+
+/-- **Ids are unique per address** (same address → same id, another address → another id): the allocator's table is
+inverted by the bindings the runtime has been sent. -/
+theorem C14_commander_ids_unique_per_address (h : Handler) (evs : List Ev) (t t' id : Nat)
+    (h1 : alGet (run h {} evs).ad.assigned t = some id) (h2 : alGet (run h {} evs).ad.assigned t' = some id) :
+    t = t' := by
+  have hi := (adinv_run h evs {} (adinv_init h)).ok
+  have a := hi.inv t id h1
+  have b := hi.inv t' id h2
+  rw [a] at b; exact Option.some.inj b
+
+/-- a commander the lifecycle holds carries the id allocated for its address, and the runtime resolves it to it -/
+theorem C14_commander_id_resolves_to_its_address (h : Handler) (evs : List Ev) (t id : Nat)
+    (hc : alGet (run h {} evs).ad.cache t = some id) :
+    alGet (resolveRun (run h {} evs).ad.issued).1 id = some t := by
+  have hi := (adinv_run h evs {} (adinv_init h)).ok
+  exact hi.inv t id (hi.cache t id hc)
+
+/-- Runtime side (`CommanderIds::set_id`): registering an id never rebinds ANOTHER id. -/
+theorem C14_runtime_registration_keeps_other_ids (st : List (Nat × Nat) × List (Bool × AdHoc)) (t id id' : Nat)
+    (hne : id ≠ id') : alGet (stepResolve st (.register t id)).1 id' = alGet st.1 id' :=
+  stepResolve_register_other st t id id' hne
+
+/-! Non-vacuity (the rig's lifecycle): 17 sends 4 ad hoc commands and one through a commander (6 records with the
+`Register`), 22 a burst of 60 and three through commanders; the first write is still in flight when the burst arrives
+(it waits in `command_buffer`), one completion restarts the writer, the second brings it home. Two commanders get
+different ids and their commands resolve to their own targets. -/
 example : ((run rigHandler {} [.command .cmd (.ok 17), .command .cmd (.ok 22)]).ad.inflight.length,
-    (run rigHandler {} [.command .cmd (.ok 17), .command .cmd (.ok 22)]).ad.buf.length) = (4, 60) := by decide
+    (run rigHandler {} [.command .cmd (.ok 17), .command .cmd (.ok 22)]).ad.buf.length) = (6, 65) := by decide
 example : ((run rigHandler {} [.command .cmd (.ok 17), .command .cmd (.ok 22), .cmdSendDone, .cmdSendDone]).ad.home,
     (run rigHandler {} [.command .cmd (.ok 17), .command .cmd (.ok 22), .cmdSendDone, .cmdSendDone]).ad.chan.length)
-    = (true, 64) := by decide
+    = (true, 71) := by decide
+example : (run rigHandler {} [.command .cmd (.ok 7)]).ad.inflight
+    = [.addressed ⟨1, 7000, false⟩, .register 3 0, .byId 0 7500 false, .register 1 1, .byId 1 7501 false] := by decide
+example : (resolveRun (run rigHandler {} [.command .cmd (.ok 7)]).ad.inflight).2
+    = [(false, ⟨1, 7000, false⟩), (true, ⟨3, 7500, false⟩), (true, ⟨1, 7501, false⟩)] := by decide
 
 end SwimVerif.CL
 
 namespace SwimVerif.CmdPath
 open SwimVerif.CL
 
-/-- an ad hoc command as the runtime's `CommandOutput` sees it: `(target, command with its overwrite flag)` -/
-def toRec (a : AdHoc) : Nat × Cmd.Cmd := (a.target, ⟨a.value, a.ow⟩)
+/-- a resolved command as the runtime's `CommandOutput` sees it: `(target, command with its overwrite flag)` -/
+def toRec (a : Bool × AdHoc) : Nat × Cmd.Cmd := (a.2.target, ⟨a.2.value, a.2.ow⟩)
 
 /-- **Agent-sent commands end to end**: take any run of the agent task that is quiescent (no ad hoc write in flight)
 and whose ad hoc channel the runtime has drained, and any run of the runtime's `CommandOutput` that was given exactly
-the records read from that channel. Then for every target, what has reached the target's channel, is in flight or is
-pending there is a SUPERSESSION of the commands the handlers issued for it: only an overwritable command may be
+the records read from that channel, resolved as the runtime resolves them (ids through the `Register` bindings).
+Then for every target, what has reached the target's channel, is in flight or is pending there is a SUPERSESSION of
+the commands the handlers meant for it — sent ad hoc or through a commander: only an overwritable command may be
 missing, and only because a later command to the same target replaced it. -/
 theorem C14_agent_commands_reach_target_as_supersession (h : Handler) (evs : List Ev)
     (hq : (CL.run h {} evs).ad.home = true) (hc : (CL.run h {} evs).ad.chan = [])
-    (ops : List Cmd.Op) (hfeed : (Cmd.run {} ops).appended = (CL.run h {} evs).ad.taken.map toRec) (t : Nat) :
-    Cmd.Sup (Cmd.cmdsFor t (((validCmds (cmdBodies evs)).flatMap h.issuedBy).map toRec)) ((Cmd.run {} ops).flow t) := by
+    (ops : List Cmd.Op)
+    (hfeed : (Cmd.run {} ops).appended = (resolveRun (CL.run h {} evs).ad.taken).2.map toRec) (t : Nat) :
+    Cmd.Sup (Cmd.cmdsFor t (((validCmds (cmdBodies evs)).flatMap h.intendedBy).map toRec))
+      ((Cmd.run {} ops).flow t) := by
   have hall := (C14_agent_commands_all_forwarded h evs hq).1
   rw [hc, List.append_nil] at hall
   have hs := Cmd.C14_commands_flow_is_supersession ops t
